@@ -661,8 +661,8 @@ def run(ctx):
              '(8 pairwise-covering sets; all 128 for the test inputs in thorough) and read as fragment (body context) '
              'and as document; a case is (input bytes, options, fragment?, delimiters); non-trivial = the real minifier '
              'changed the bytes.  Generator exclusions (known findings, pinned in known/C03.ndjson): X1 script/template '
-             'directly after </optgroup> or after a dropped end tag + comment, template after </colgroup>; X5 attribute-less colgroup that is empty or follows a colgroup; X6 attribute-less body starting with '
-             'meta/link/script/style/template/noscript; X7 empty attribute-less script/style; X10 a kept comment (KeepComments/KeepSpecialComments) directly after a dropped tag; %d repository test inputs '
+             'directly after </optgroup> or after a dropped end tag + comment, template after </colgroup>; X4 leading white space after the end tag of a non-empty template/noscript; X5 attribute-less colgroup that is empty or follows a colgroup; X6 attribute-less body starting with '
+             'meta/link/script/style/template/noscript; X7 empty attribute-less script/style; X11 optgroup directly inside template contents; X10 a kept comment (KeepComments/KeepSpecialComments) directly after a dropped tag; %d repository test inputs '
              'that are not conforming HTML (listed in tools/props/c03.py)' % len(skipped),
         samples=samples,
         exhaustive=True,
